@@ -3,9 +3,11 @@ package keygen
 import (
 	"errors"
 	"fmt"
+	"math"
 
 	"github.com/taurusgroup/multi-party-sig/internal/bip32"
 	"github.com/taurusgroup/multi-party-sig/internal/params"
+	"github.com/taurusgroup/multi-party-sig/internal/safecbor"
 	"github.com/taurusgroup/multi-party-sig/pkg/math/curve"
 	"github.com/taurusgroup/multi-party-sig/pkg/party"
 	"github.com/taurusgroup/multi-party-sig/pkg/taproot"
@@ -47,6 +49,68 @@ func EmptyConfig(group curve.Curve) *Config {
 		PublicKey:          group.NewPoint(),
 		VerificationShares: party.EmptyPointMap(group),
 	}
+}
+
+// Validate checks that the config holds everything that is needed to take part in a protocol:
+// keys, a threshold that fits the number of parties, and a verification share for every party
+// including this one.
+func (r *Config) Validate() error {
+	if r == nil {
+		return errors.New("config: config is nil")
+	}
+	if r.ID == "" {
+		return errors.New("config: ID is empty")
+	}
+	if r.PrivateShare == nil || r.PrivateShare.IsZero() || r.PublicKey == nil {
+		return errors.New("config: private share or public key is missing")
+	}
+	if r.VerificationShares == nil {
+		return errors.New("config: verification shares are missing")
+	}
+	if r.PublicKey.IsIdentity() {
+		return errors.New("config: public key is the identity")
+	}
+	if l := len(r.ChainKey); l != 0 && l != params.SecBytes {
+		return fmt.Errorf("config: chain key has %d bytes, expected %d", l, params.SecBytes)
+	}
+	present := make(map[party.ID]bool, len(r.VerificationShares.Points))
+	for id, share := range r.VerificationShares.Points {
+		present[id] = share != nil && !share.IsIdentity()
+	}
+	if err := validateShares(r.ID, r.Threshold, present); err != nil {
+		return err
+	}
+	if !r.VerificationShares.Points[r.ID].Equal(r.PrivateShare.ActOnBase()) {
+		return errors.New("config: private share does not match this party's verification share")
+	}
+	return nil
+}
+
+// UnmarshalCBOR restores a config stored with cbor.Marshal. The receiver must come from EmptyConfig.
+// Malformed data is an error, and so is data that does not describe a usable config.
+func (r *Config) UnmarshalCBOR(data []byte) error {
+	type plain Config // the same fields, decoded the default way
+	if err := safecbor.Unmarshal(data, (*plain)(r)); err != nil {
+		return err
+	}
+	return r.Validate()
+}
+
+// validateShares checks the threshold against the number of parties, and that every party
+// including `self` has a verification share.
+func validateShares(self party.ID, threshold int, present map[party.ID]bool) error {
+	if n := len(present); threshold < 0 || threshold > math.MaxUint32 || threshold > n-1 {
+		return fmt.Errorf("config: threshold %d is invalid for %d parties", threshold, n)
+	}
+	for id, ok := range present {
+		if !ok {
+			return fmt.Errorf("config: party %s: verification share is missing", id)
+		}
+	}
+	if !present[self] {
+		return errors.New("config: no verification share for this party")
+	}
+	return nil
 }
 
 // Curve returns the Elliptic Curve Group associated with this result.
@@ -123,6 +187,49 @@ type TaprootConfig struct {
 	//
 	// This will later be used to verify the integrity of the signing protocol.
 	VerificationShares map[party.ID]*curve.Secp256k1Point
+}
+
+// Validate checks that the config holds everything that is needed to take part in a protocol.
+func (r *TaprootConfig) Validate() error {
+	if r == nil {
+		return errors.New("config: config is nil")
+	}
+	if r.ID == "" {
+		return errors.New("config: ID is empty")
+	}
+	if r.PrivateShare == nil || r.PrivateShare.IsZero() {
+		return errors.New("config: private share is missing")
+	}
+	if r.VerificationShares == nil {
+		return errors.New("config: verification shares are missing")
+	}
+	if _, err := (curve.Secp256k1{}).LiftX(r.PublicKey); err != nil {
+		return fmt.Errorf("config: public key: %w", err)
+	}
+	if l := len(r.ChainKey); l != 0 && l != params.SecBytes {
+		return fmt.Errorf("config: chain key has %d bytes, expected %d", l, params.SecBytes)
+	}
+	present := make(map[party.ID]bool, len(r.VerificationShares))
+	for id, share := range r.VerificationShares {
+		present[id] = share != nil && !share.IsIdentity()
+	}
+	if err := validateShares(r.ID, r.Threshold, present); err != nil {
+		return err
+	}
+	if !r.VerificationShares[r.ID].Equal(r.PrivateShare.ActOnBase()) {
+		return errors.New("config: private share does not match this party's verification share")
+	}
+	return nil
+}
+
+// UnmarshalCBOR restores a config stored with cbor.Marshal.
+// Malformed data is an error, and so is data that does not describe a usable config.
+func (r *TaprootConfig) UnmarshalCBOR(data []byte) error {
+	type plain TaprootConfig // the same fields, decoded the default way
+	if err := safecbor.Unmarshal(data, (*plain)(r)); err != nil {
+		return err
+	}
+	return r.Validate()
 }
 
 // Clone creates a deep clone of this struct, and all the values contained inside
